@@ -23,6 +23,7 @@ type loopInfo struct {
 	blocks  map[*ssa.BasicBlock]bool
 	ordinal int
 	entrySt *State
+	headSt  *State // state at the head for one iteration (after havoc and invariants)
 }
 
 type edgeKey struct{ from, to, slot int }
@@ -43,6 +44,65 @@ type bodyRun struct {
 	cells map[types.Object]ssa.Value
 	cellsByName map[string][]*ssa.Alloc
 	sites map[string][]ssa.CallInstruction
+	assigns map[string][]*ssa.DebugRef // assignments to a source variable, in source order
+}
+
+func (br *bodyRun) namedAllocs(name string) []*ssa.Alloc {
+	var out []*ssa.Alloc
+	for _, b := range br.fn.Blocks {
+		for _, ins := range b.Instrs {
+			if a, ok := ins.(*ssa.Alloc); ok && a.Comment == name {
+				out = append(out, a)
+			}
+		}
+	}
+	return out
+}
+
+// assignSites: the debug references that stand for assignments to the source variable name
+// (x = e, x := e, x op= e, x++), in source order.
+func (br *bodyRun) assignSites(name string) []*ssa.DebugRef {
+	if br.assigns == nil {
+		br.assigns = map[string][]*ssa.DebugRef{}
+		lhs := map[*ast.Ident]bool{}
+		if syn := br.fn.Syntax(); syn != nil {
+			ast.Inspect(syn, func(n ast.Node) bool {
+				switch x := n.(type) {
+				case *ast.AssignStmt:
+					for _, l := range x.Lhs {
+						if id, ok := l.(*ast.Ident); ok {
+							lhs[id] = true
+						}
+					}
+				case *ast.IncDecStmt:
+					if id, ok := x.X.(*ast.Ident); ok {
+						lhs[id] = true
+					}
+				case *ast.FuncLit:
+					// assignments inside nested closures belong to those closures
+					return n == syn
+				}
+				return true
+			})
+		}
+		for _, b := range br.fn.Blocks {
+			for _, ins := range b.Instrs {
+				dr, ok := ins.(*ssa.DebugRef)
+				if !ok || dr.IsAddr {
+					continue
+				}
+				id, ok := dr.Expr.(*ast.Ident)
+				if !ok || !lhs[id] {
+					continue
+				}
+				br.assigns[id.Name] = append(br.assigns[id.Name], dr)
+			}
+		}
+		for _, l := range br.assigns {
+			sort.SliceStable(l, func(i, j int) bool { return l[i].Pos() < l[j].Pos() })
+		}
+	}
+	return br.assigns[name]
 }
 
 func mkKS(key, sort string) keySort { return keySort{key: key, sort: sort} }
@@ -306,6 +366,7 @@ func (br *bodyRun) enter(b *ssa.BasicBlock) *State {
 		fc.assume(st, fc.guarded(func() string { return env.revealSpec(c.E) }, c))
 	}
 	fc.cover(st, fmt.Sprintf("%scover:loop:%d", br.prefix, li.ordinal), firstPos(b), "loop invariant is satisfiable at the loop head")
+	li.headSt = st.clone()
 	return st
 }
 
@@ -790,6 +851,21 @@ func (br *bodyRun) envAt(b *ssa.BasicBlock, idx int, st *State, phiOv map[*ssa.P
 					if v, ok := fc.vals[phi]; ok {
 						return TV{v, phi.Type()}, true
 					}
+				}
+			}
+		}
+		// a variable that lives in a cell: its content in the state at the head of the
+		// innermost enclosing loop (after the loop havoc, i.e. at the start of this iteration)
+		for blk := b; blk != nil; blk = blk.Idom() {
+			li, isHead := br.loops[blk]
+			if !isHead || li.headSt == nil {
+				continue
+			}
+			hs := li.headSt
+			for _, a := range br.namedAllocs(name) {
+				if p, ok := fc.vals[a].(PtrV); ok {
+					et := a.Type().Underlying().(*types.Pointer).Elem()
+					return TV{fc.load(hs, p, et), et}, true
 				}
 			}
 		}
